@@ -67,7 +67,7 @@ pub struct TextFault {
     pub text: String,
 }
 
-pub const TEXT_KINDS: &[&str] = &["T-TRUNC", "T-DELCH", "T-INSCH", "T-DELTOK", "T-DUPTOK", "T-SWAPTOK", "T-INSTOK", "T-NUM", "T-REPTOK", "T-REFNAME"];
+pub const TEXT_KINDS: &[&str] = &["T-TRUNC", "T-DELCH", "T-INSCH", "T-DELTOK", "T-DUPTOK", "T-SWAPTOK", "T-INSTOK", "T-NUM", "T-REPTOK", "T-REFNAME", "T-FROMNAME"];
 
 fn char_boundary_at(text: &str, mut i: usize) -> usize {
     i = i.min(text.len());
@@ -172,6 +172,21 @@ pub fn apply_text_fault(kind: &'static str, text: &mut String, l: &mut Lane<'_>)
             let old = text[s..e].to_string();
             text.replace_range(s..e, &name);
             Some(TextFault { kind, text: format!("type position {:?} -> reference {:?}", old, name) })
+        }
+        "T-FROMNAME" => {
+            // the module name behind FROM becomes the module's own name or the name of another module
+            // known to the corpus (an import typo: self imports and import cycles between modules)
+            let froms: Vec<usize> = (1..sp.len()).filter(|i| &text[sp[i - 1].0..sp[i - 1].1] == "FROM").collect();
+            if froms.is_empty() {
+                return None;
+            }
+            let own = sp.first().map(|(s, e)| text[*s..*e].to_string()).unwrap_or_default();
+            const OTHERS: &[&str] = &["Importer", "Provider", "Plain", "MutualA", "MutualB", "ZooScalars", "Recursive"];
+            let name = if l.draw(2) == 0 { own } else { OTHERS[l.draw(OTHERS.len() as u64) as usize].to_string() };
+            let (s, e) = sp[froms[l.draw(froms.len() as u64) as usize]];
+            let old = text[s..e].to_string();
+            text.replace_range(s..e, &name);
+            Some(TextFault { kind, text: format!("FROM {:?} -> FROM {:?}", old, name) })
         }
         "T-NUM" => {
             let nums: Vec<(usize, usize)> = sp.iter().copied().filter(|(s, e)| text[*s..*e].bytes().all(|c| c.is_ascii_digit())).collect();
